@@ -189,3 +189,81 @@ simple("dataiter/list_of_dicts.py::ListOfDicts.unique[one key]",
        lambda run: ((l,) for l in full_lists(3)),
        lambda d: d.unique("a"),
        lambda l: [x for i, x in enumerate(l) if not any(y["a"] == x["a"] for y in l[:i])], B)
+
+
+def inplace(name, gen, call, expect, bound):
+    """Driver for editing methods: result items must BE the receiver's item objects (same identity,
+    same order) and their contents must equal the plain-dict reference semantics."""
+    @driver(name)
+    def _d(run):
+        run.bound = bound(run)
+        for inp in run.inputs(gen(run)):
+            l = inp[0]
+            data = mk(l)
+            objs = list(data)
+            try:
+                got = call(data, *inp[1:])
+                ok_ident = isinstance(got, ListOfDicts) and same_objects(got, objs)
+                gotp = plain(got)
+            except Exception as e:
+                ok_ident, gotp = False, f"raised {type(e).__name__}: {e}"
+            exp = expect(copy.deepcopy(l), *inp[1:])
+            run.check(list(inp), ok_ident and gotp == exp, expected=exp, got=gotp, clause="in-place edit")
+    return _d
+
+
+FUNCS = {"a_plus": lambda x: (x.get("a") or 0) + 1, "const7": lambda x: 7, "b_val": lambda x: x.get("b")}
+
+
+def _modify(l, *fs):
+    for x in l:
+        for k, f in fs:
+            x[k] = FUNCS[f](x)
+    return l
+
+
+inplace("dataiter/list_of_dicts.py::ListOfDicts.modify[one key]",
+        lambda run: ((l, k, f) for l in lists(maxlen(run)) for k in ["a", "c"] for f in FUNCS),
+        lambda d, k, f: d.modify(**{k: FUNCS[f]}), lambda l, k, f: _modify(l, (k, f)), B)
+inplace("dataiter/list_of_dicts.py::ListOfDicts.modify[two keys]",
+        lambda run: ((l, f, g) for l in lists(maxlen(run)) for f in FUNCS for g in FUNCS),
+        lambda d, f, g: d.modify(a=FUNCS[f], c=FUNCS[g]), lambda l, f, g: _modify(l, ("a", f), ("c", g)), B)
+
+
+def _modify_if(l, p, k, f):
+    for x in l:
+        if PREDICATES[p](x):
+            x[k] = FUNCS[f](x)
+    return l
+
+
+inplace("dataiter/list_of_dicts.py::ListOfDicts.modify_if[one key]",
+        lambda run: ((l, p, k, f) for l in lists(maxlen(run)) for p in PREDICATES for k in ["a", "c"] for f in ["a_plus", "const7"]),
+        lambda d, p, k, f: d.modify_if(PREDICATES[p], **{k: FUNCS[f]}), _modify_if, B)
+inplace("dataiter/list_of_dicts.py::ListOfDicts.unselect[one key]",
+        lambda run: ((l, k) for l in lists(maxlen(run)) for k in ["a", "b", "c"]),
+        lambda d, k: d.unselect(k), lambda l, k: [{kk: v for kk, v in x.items() if kk != k} for x in l], B)
+inplace("dataiter/list_of_dicts.py::ListOfDicts.fill_missing_keys[one key=value]",
+        lambda run: ((l, k, v) for l in lists(maxlen(run)) for k in ["a", "c"] for v in [None, 5]),
+        lambda d, k, v: d.fill_missing_keys(**{k: v}), lambda l, k, v: [{**x, **({} if k in x else {k: v})} for x in l], B)
+
+
+def select_driver(name, keys):
+    @driver(name)
+    def _d(run):
+        run.bound = B(run)
+        for (l,) in run.inputs(((l,) for l in lists(maxlen(run)))):
+            data = mk(l)
+            before = plain(data)
+            objs = list(data)
+            got = data.select(*keys)
+            exp = [{k: x[k] for k in keys if k in x} for x in l]
+            fresh = all(not any(g is o for o in objs) for g in got)
+            run.check([l], isinstance(got, ListOfDicts) and plain(got) == exp and plain(data) == before and fresh
+                      and all(hasattr(g, "items") and type(g).__name__ == "AttributeDict" for g in got),
+                      expected=exp, got=plain(got), clause="select")
+    return _d
+
+
+select_driver("dataiter/list_of_dicts.py::ListOfDicts.select[one key]", ["a"])
+select_driver("dataiter/list_of_dicts.py::ListOfDicts.select[two keys]", ["b", "a"])
